@@ -1,4 +1,5 @@
 import DoitModel.Proofs.DelayedWF
+import DoitModel.Model.DelayedSel
 /-! # C15 — delayed task creation happens once, after its trigger
 
 Property theorems only (model: `Model/Delayed.lean`, `Model/DelayedSel.lean`; invariants: `Proofs/Delayed*.lean`).
@@ -10,24 +11,31 @@ of a transition system that is exactly the serial `Runner` when `inp.serial` and
 completion order, any iteration order of `waiting_me`).
 
 `onceOK`, `afterOK` are the decidable statements; the driver evaluates the same functions on the implementation's
-trace (the monitor).  The hypotheses are decidable (`resolvesB`, `coversB`, `trigB`) and evaluated on every
-generated case. -/
+trace (the monitor).  The hypotheses are decidable (`trigB`; `resolvesB`, `coversB` for the pinned variant) and
+evaluated on every generated case. -/
 namespace DoitModel.C15
 open DoitModel.Delayed
 open DoitModel.Run (Name)
 
-/-- **once**: in every reachable state no task-creator has been evaluated twice.
-    `resolvesB`: `self.tasks[to_load]` of a placeholder carries the placeholder's own loader object;
-    `coversB`: a creator with several loader objects (`creates=[a,b,…]`, one copy per name) yields a task for every
-    name it declares.  (Without `coversB` the statement is false of the code: `once_needs_covers` below.) -/
-theorem C15_once (inp : Input) (h1 : resolvesB inp = true) (h2 : coversB inp = true) (s : Sys) (hr : Reach inp s) :
-    onceOK s.events = true := by
-  exact (once_reach (onceWF_of_bool h1 h2) hr).once
+/-- **once** (full strength): in every reachable state of the dispatcher as it is now (`evaluated_creators`, repair
+    994517d) no task-creator has been evaluated twice — whatever the creators yield, however many loader objects
+    (`creates=[a,b,…]`: one copy per name) and placeholders share a creator, under every schedule and runner. -/
+theorem C15_once (inp : Input) (hp : inp.pinnedOnce = false) (s : Sys) (hr : Reach inp s) :
+    onceOK s.events = true :=
+  (eval_reach hp hr).o
 
 /-- the same as a count: at most one `creator c` event per creator and run -/
-theorem C15_once_count (inp : Input) (h1 : resolvesB inp = true) (h2 : coversB inp = true) (s : Sys)
-    (hr : Reach inp s) (c : CId) : s.events.count (Ev.creator c) ≤ 1 :=
-  onceOK_count c _ (C15_once inp h1 h2 s hr)
+theorem C15_once_count (inp : Input) (hp : inp.pinnedOnce = false) (s : Sys) (hr : Reach inp s) (c : CId) :
+    s.events.count (Ev.creator c) ≤ 1 :=
+  onceOK_count c _ (C15_once inp hp s hr)
+
+/-- the pinned dispatcher (and the repaired one) without relying on `evaluated_creators`: "once" holds when
+    `resolvesB` (`self.tasks[to_load]` of a placeholder carries the placeholder's own loader object) and `coversB`
+    (a creator with several loader objects yields a task for every name it declares).  Without `coversB` it was false
+    of the pinned code: `once_needs_covers` below (finding F-C15b, fixed). -/
+theorem C15_once_pinned (inp : Input) (h1 : resolvesB inp = true) (h2 : coversB inp = true) (s : Sys)
+    (hr : Reach inp s) : onceOK s.events = true :=
+  (once_reach (onceWF_of_bool h1 h2) hr).once
 
 /-- **after its trigger**: whenever a creator is evaluated, every task named in `executed` of (a loader object of)
     that creator already has its terminal report (`add_success`, `add_failure`, `skip_uptodate`) in the trace.
@@ -104,7 +112,7 @@ def C15_target_full : Prop :=
     yields task 1 and task 2 (which depends on 1); a static task 3 depending on both placeholders, selected.  The
     nodes of BOTH placeholders exist before the creator is evaluated. -/
 
-def exInput (covers : Bool) : Input :=
+def exInput (covers : Bool) (pinned : Bool := false) : Input :=
   { tasks0 := [(0, { act := true, oid := 0 }), (1, { deps := [0], loader := some 0, oid := 1 }),
                (2, { deps := [0], loader := some 1, oid := 2 }), (3, { deps := [1, 2], act := true, oid := 3 })]
     targets0 := []
@@ -114,7 +122,8 @@ def exInput (covers : Bool) : Input :=
     gtarget := fun _ => 0
     gtasks0 := fun _ => []
     make := fun _ _ => if covers then [{ name := 1 }, { name := 2, deps := [1] }] else [{ name := 1 }]
-    sel := [3] }
+    sel := [3]
+    pinnedOnce := pinned }
 
 /-- the hypotheses of the theorems hold for the example, its run ends regularly, the creator was evaluated (exactly
     once), after the trigger, and the created tasks and the selected task were executed -/
@@ -128,12 +137,44 @@ example :
 example : Reach (exInput true) (autoRun (exInput true) 200 (init (exInput true))) :=
   autoRun_reach 200 _ Reach.init
 
-/-- `coversB` is necessary: when the creator does not yield the second name it declares, the second loader object
-    (its own `created` flag) evaluates it again — the pinned behaviour, open finding `creates-not-yielded` -/
+/-- the pinned dispatcher needed `coversB`: when the creator does not yield the second name it declares, the second
+    loader object (its own `created` flag) evaluated it again (finding F-C15b; `seeded/revert-F-C15b`) -/
 theorem once_needs_covers :
-    resolvesB (exInput false) = true ∧ coversB (exInput false) = false ∧
-    Reach (exInput false) (autoRun (exInput false) 200 (init (exInput false))) ∧
-    onceOK (autoRun (exInput false) 200 (init (exInput false))).events = false :=
+    resolvesB (exInput false true) = true ∧ coversB (exInput false true) = false ∧
+    Reach (exInput false true) (autoRun (exInput false true) 200 (init (exInput false true))) ∧
+    onceOK (autoRun (exInput false true) 200 (init (exInput false true))).events = false :=
   ⟨by decide, by decide, autoRun_reach 200 _ Reach.init, by decide⟩
+
+/-- … and the repaired one evaluates it once on the same input; the placeholder nobody re-defined runs as an empty task -/
+example :
+    (autoRun (exInput false) 200 (init (exInput false))).susp = .stopIter ∧
+    (autoRun (exInput false) 200 (init (exInput false))).events.reverse =
+      [.start 0, .success 0, .creator 0, .start 1, .success 1, .start 2, .success 2, .start 3, .success 3] := by
+  decide
+/-! ### `_filter_tasks`: task 0 = trigger, task 1 = placeholder of a creator with a target_regex that matches word 3;
+    word 2 = the sub-task name `1:x` (base 1).  Selection `1:x out_y`. -/
+
+def exPre (skip : Bool) : Pre :=
+  { tasks := [(0, { act := true, oid := 0 }), (1, { deps := [0], loader := some 0, oid := 1 })]
+    targets := []
+    creatorOf := fun _ => 0
+    execOf := fun _ => some 0
+    hasRegex := fun _ => true
+    rxMatch := fun _ w => w == 3
+    rxName := fun _ t => 10 + t
+    skipSub := skip }
+
+def selectedAndBase (pre : Pre) (ws : List Word) : List Name × Option Name :=
+  match process pre (some ws) with
+  | .inr st => (st.selected, st.baseOf 0)
+  | .inl _ => ([], none)
+
+/-- repaired (46c8565): one regex placeholder, for the creator's own task; `loader.basename` stays the creator's task -/
+example : selectedAndBase (exPre true) [⟨2, 1⟩, ⟨3, 3⟩] = ([2, 11], some 1) := by decide
+
+/-- pinned (finding F-C15a; `seeded/revert-F-C15a`): the sub-task placeholder was matched as well and
+    `loader.basename` ended up naming it, so the creator's tasks were created as `1:x:<sub>` -/
+theorem pinned_filter_matches_subtask_placeholder :
+    selectedAndBase (exPre false) [⟨2, 1⟩, ⟨3, 3⟩] = ([2, 11, 12], some 2) := by decide
 
 end DoitModel.C15
